@@ -109,7 +109,7 @@ Print Assumptions C01_to_pep440_dotted.
 
 (* ---- Proofs.CalverE2E ---- *)
 From Coq Require Import List Bool NArith ZArith Arith.
-From BV Require Import Lib.PyStr Lib.Decimal Lib.Calendar Model.V2 Model.Pep440 Model.Cli Model.Lexid Proofs.DottedFacts Proofs.CalverE2E.
+From BV Require Import Lib.PyStr Lib.Decimal Lib.Calendar Model.V2 Model.Pep440 Model.Cli Model.Lexid Proofs.DottedFacts Proofs.DottedJoinFacts Proofs.CalverE2E.
 Import ListNotations.
 (* calver_test_cmd :
    forall (today date : Z) (fl : flags) (y m : N) (bid b' : list N), (1000 <= y <= 9999)%N -> (1 <= m <= 12)%N -> all_digits bid = true -> bid <> [] -> (0 <= date <= MAX_ORD)%Z -> no_flags fl -> bump_bid bid = Some b' -> test_cmd_v2 today (cv y m bid) P fl (Some (Some date)) None = Exit0 (calver_next y m b' date) (to_pep440 (calver_next y m b' date)) *)
@@ -156,7 +156,7 @@ Print Assumptions C01_repo_order_test.
 
 (* ---- Proofs.TaggedFacts ---- *)
 From Coq Require Import List Bool NArith ZArith Arith.
-From BV Require Import Lib.PyStr Lib.Decimal Lib.Regex Model.Pep440 Proofs.CalverE2E Proofs.TaggedFacts.
+From BV Require Import Lib.PyStr Lib.Decimal Lib.Regex Model.Pep440 Proofs.DottedJoinFacts Proofs.TaggedFacts.
 Import ListNotations.
 Theorem C01_tag_rank_lt : forall (v v' : bool) (ds : list (list N)) (sep sep' : list N) (t1 t2 : btag) (n m : list N), ds <> [] -> Forall dstr ds -> sep_ok sep -> sep_ok sep' -> all_digits n = true -> all_digits m = true -> (rank t1 < rank t2)%N -> ver_lt (tagged v ds sep t1 n) (tagged v' ds sep' t2 m) = true /\ ver_lt (tagged v' ds sep' t2 m) (tagged v ds sep t1 n) = false.
 Proof. exact tag_rank_lt. Qed.
